@@ -14,6 +14,10 @@ from . import symx, chain
 from .symx import engine
 
 
+class Livelock(Exception):
+    pass
+
+
 def hexh(b):
     return bytes(reversed(bytes(b))).hex()
 
@@ -33,6 +37,9 @@ class FakeDaemon:
     async def height(self):
         self._cached = len(self.chain) - 1
         self.calls.append(('height', self._cached))
+        if len(self.calls) > 400:
+            raise Livelock('the block processor keeps asking the daemon without ever becoming idle '
+                           '(it never catches up)')
         return self._cached
 
     def cached_height(self):
